@@ -312,8 +312,27 @@ def check(prop_id, tier, seed):
                 broken.append({"kind": "correspondence", "what": "model evaluation failed on " + os.path.basename(f),
                                "detail": e})
             for f, v in vals:
+                kind = run_spec.get("result_kind", spec.get("result_kind"))
+                for pref, k in spec.get("shard_kinds", {}).items():
+                    if os.path.basename(f).startswith(pref):
+                        kind = k
                 for item in v:
-                    if run_spec.get("result_kind", spec.get("result_kind")) == "region":
+                    if kind == "curvedev":
+                        # verified curve-deviation checker: (id, code, detail); code 0 = a range left undecided
+                        # when the fuel ran out (never an alarm), 1 = parameters not ordered / not ending at 1,
+                        # 2 = witness (range index, parameter num, den), 3 = vertex far from its curve point
+                        if item[1] == 0:
+                            inconclusive.append(item[0])
+                            continue
+                        what = {1: "verified curve-deviation checker: the reported curve parameters are not ordered or do not end at 1",
+                                2: "verified curve-deviation checker: a point of the curve (range %s, parameter %s/%s) is farther than "
+                                   "the tolerance from every segment of the flattened polyline" % tuple((list(item[2]) + ["?"] * 3)[:3]),
+                                3: "verified curve-deviation checker: vertex %s of the polyline is farther than the tolerance from the "
+                                   "curve point of its own parameter" % (item[2][0] if item[2] else "?")}.get(item[1], "verified curve-deviation checker")
+                        failures.append({"what": what, "case": item[0],
+                                         "input": lookup_case(outdir, {"case": item}), "run": sub + "/" + profile})
+                        continue
+                    if kind == "region":
                         # verified region comparator: (id, n_unaccepted_intervals, [witness]) ; an entry
                         # without a witness point is undecided residue (never an alarm), n = -1 is an overlap
                         if item[2] or item[1] == -1:
@@ -326,7 +345,7 @@ def check(prop_id, tier, seed):
                         else:
                             inconclusive.append(item[0])
                         continue
-                    if run_spec.get("result_kind", spec.get("result_kind")) == "cover":
+                    if kind == "cover":
                         # verified stroke cover checker: (id, uncovered must points on the scanned lines, triangles too far)
                         failures.append({"what": "verified cover checker: %d uncovered point(s) of the band on the scanned "
                                                  "lines, %d triangle(s) reaching beyond the allowed distance" % (item[1], item[2]),
